@@ -77,6 +77,9 @@ package stats
 //@ func (c *Collector) RecordRequest
 //@   property C19
 //@   modifies c.endpoints[all], c.lastCleanup, endpointData.lastUsed, endpointData.minLatency, endpointData.maxLatency, endpointData.totalRequests, endpointData.successfulRequests, endpointData.failedRequests, endpointData.totalBytes, endpointData.totalLatency, c.totalRequests, c.successfulRequests, c.failedRequests, c.totalLatency
+// the per-endpoint record is updated too (before housekeeping may evict old entries): every attempt is counted once
+// at endpoint scope
+//@   at call tryCleanup 1 assert endpoint != nil ==> xhas(c.endpoints, endpoint.URLString) && (old(xhas(c.endpoints, endpoint.URLString)) ==> counter(xget(c.endpoints, endpoint.URLString).totalRequests) == old(counter(xget(c.endpoints, endpoint.URLString).totalRequests)) + 1)
 //@   ensures counter(c.totalRequests) == old(counter(c.totalRequests)) + 1
 //@   ensures status == "success" ==> counter(c.successfulRequests) == old(counter(c.successfulRequests)) + 1 && counter(c.failedRequests) == old(counter(c.failedRequests))
 //@   ensures status != "success" ==> counter(c.failedRequests) == old(counter(c.failedRequests)) + 1 && counter(c.successfulRequests) == old(counter(c.successfulRequests))
